@@ -171,8 +171,9 @@ func newSignalingServer(rawURL string, keepLocalAddresses bool) (*SignalingServe
 		return nil, fmt.Errorf("invalid broker url: %s", err)
 	}
 
-	s.transport = http.DefaultTransport.(*http.Transport)
-	s.transport.(*http.Transport).ResponseHeaderTimeout = 30 * time.Second
+	transport := http.DefaultTransport.(*http.Transport).Clone()
+	transport.ResponseHeaderTimeout = 30 * time.Second
+	s.transport = transport
 
 	return s, nil
 }
